@@ -1,5 +1,7 @@
 import ScrapliModel.Lemmas.Queue
 import ScrapliModel.Lemmas.QueueSolo
+import ScrapliModel.Lemmas.GoSem
+import ScrapliModel.Generated.BodiesQueue
 /-!
 # C20 — The channel's byte queue is a lossless FIFO under concurrent use
 
@@ -212,5 +214,80 @@ theorem conc_putback_first (l l' : List CEv) (b c : Bytes) (S Q : List Bytes)
 
 example : consume ([.got [1]] ++ .back [9] :: .got [9] :: [.got [2]]) [[1], [2], [3]] = some [[3]] := by
   decide
+
+/-! ## tie to the source: translated method bodies = the `Seq` layer (regenerated on every run)
+
+The struct is the four state variables `queue`, `depth`, `token` (content of the 1-slot
+`depthChan`), `locked`; `Lock`/`RLock` on a held lock, a receive from the empty channel and a send
+to the full one are the `deadlock` fault, an index out of range the `panic` fault; the deferred
+`Unlock` runs before every return that follows it. A `[]byte` result keeps `nil` apart (`none`). -/
+
+/-- the body of `(*Queue).getDepth` (receive the depth token, send it back, return it) as the
+translator renders it from the current source (`Generated/BodiesQueue.lean`) is `Seq.getDepthTok`,
+faults included, for every queue state -/
+theorem generated_getDepthTok_eq (q : Q) :
+    Gen.Bodies.QueueSeq.getDepthTok q.queue q.depth q.token q.locked
+      = (Seq.getDepthTok q).map (fun r => (r.1, r.2.queue, r.2.depth, r.2.token, r.2.locked)) := by
+  obtain ⟨queue, depth, token, locked⟩ := q
+  unfold Gen.Bodies.QueueSeq.getDepthTok Seq.getDepthTok
+  cases token <;> simp [Seq.recvTok, Seq.sendTok, bind, Except.bind, Except.map, pure, Except.pure]
+
+/-- the translated body of `(*Queue).Enqueue` is `Seq.enqueue`, faults included, for every state -/
+theorem generated_enqueue_eq (q : Q) (b : Bytes) :
+    Gen.Bodies.QueueSeq.enqueue q.queue q.depth q.token q.locked b
+      = (Seq.enqueue q b).map (fun r => (r.queue, r.depth, r.token, r.locked)) := by
+  obtain ⟨queue, depth, token, locked⟩ := q
+  unfold Gen.Bodies.QueueSeq.enqueue Seq.enqueue
+  cases token <;> cases locked <;>
+    simp [Seq.lock, Seq.unlock, Seq.republish, Seq.recvTok, Seq.sendTok, bind, Except.bind, Except.map, pure, Except.pure]
+
+/-- the translated body of `(*Queue).Requeue` is `Seq.requeue`, faults included, for every state -/
+theorem generated_requeue_eq (q : Q) (b : Bytes) :
+    Gen.Bodies.QueueSeq.requeue q.queue q.depth q.token q.locked b
+      = (Seq.requeue q b).map (fun r => (r.queue, r.depth, r.token, r.locked)) := by
+  obtain ⟨queue, depth, token, locked⟩ := q
+  unfold Gen.Bodies.QueueSeq.requeue Seq.requeue
+  cases token <;> cases locked <;>
+    simp [Seq.lock, Seq.unlock, Seq.republish, Seq.recvTok, Seq.sendTok, bind, Except.bind, Except.map, pure, Except.pure]
+
+/-- the translated body of `(*Queue).Dequeue` (early `nil` on published depth 0; `q.queue[0]` and
+`q.queue[1:]` with their bounds tests = the `panic` fault) is `Seq.dequeue`, for every state -/
+theorem generated_dequeue_eq (q : Q) :
+    Gen.Bodies.QueueSeq.dequeue q.queue q.depth q.token q.locked
+      = (Seq.dequeue q).map (fun r => (r.1, r.2.queue, r.2.depth, r.2.token, r.2.locked)) := by
+  obtain ⟨queue, depth, token, locked⟩ := q
+  unfold Gen.Bodies.QueueSeq.dequeue Seq.dequeue Gen.Bodies.QueueSeq.getDepthTok Seq.getDepthTok
+  cases token with
+  | none => simp [Seq.recvTok, bind, Except.bind, Except.map]
+  | some d =>
+    by_cases hd : d = 0
+    · simp [hd, Seq.recvTok, Seq.sendTok, bind, Except.bind, Except.map, pure, Except.pure]
+    · cases locked <;> cases queue <;>
+        simp [hd, Seq.lock, Seq.unlock, Seq.republish, Seq.recvTok, Seq.sendTok, bind, Except.bind, Except.map,
+          pure, Except.pure, Go.idxOK_zero_nil, Go.idxOK_zero_cons, Go.sliceOK_one_cons, Go.at_zero_cons,
+          Go.slice_one_cons]
+
+/-- the translated body of `(*Queue).DequeueAll` is `Seq.dequeueAll`, faults included, for every state -/
+theorem generated_dequeueAll_eq (q : Q) :
+    Gen.Bodies.QueueSeq.dequeueAll q.queue q.depth q.token q.locked
+      = (Seq.dequeueAll q).map (fun r => (r.1, r.2.queue, r.2.depth, r.2.token, r.2.locked)) := by
+  obtain ⟨queue, depth, token, locked⟩ := q
+  unfold Gen.Bodies.QueueSeq.dequeueAll Seq.dequeueAll Gen.Bodies.QueueSeq.getDepthTok Seq.getDepthTok
+  cases token with
+  | none => simp [Seq.recvTok, bind, Except.bind, Except.map]
+  | some d =>
+    by_cases hd : d = 0
+    · simp [hd, Seq.recvTok, Seq.sendTok, bind, Except.bind, Except.map, pure, Except.pure]
+    · cases locked <;>
+        simp [hd, Seq.lock, Seq.unlock, Seq.republish, Seq.recvTok, Seq.sendTok, bind, Except.bind, Except.map,
+          pure, Except.pure]
+
+/-- the translated body of `(*Queue).GetDepth` is `Seq.getDepth`, for every state -/
+theorem generated_getDepth_eq (q : Q) :
+    Gen.Bodies.QueueSeq.getDepth q.queue q.depth q.token q.locked
+      = (Seq.getDepth q).map (fun r => (r.1, r.2.queue, r.2.depth, r.2.token, r.2.locked)) := by
+  obtain ⟨queue, depth, token, locked⟩ := q
+  unfold Gen.Bodies.QueueSeq.getDepth Seq.getDepth
+  cases locked <;> simp [Seq.lock, Seq.unlock, bind, Except.bind, Except.map, pure, Except.pure]
 
 end Scrapli.Queue.C20
